@@ -63,7 +63,7 @@ COMMENTS = ["# c", "#c", "#", "#!x", "# $HOME ![ls]", "#  two", "# a  b  ", "#\t
 MACRO_RAW = ["a", "a   b", "  a b  ", "x = 1", "x=1", "a,  b", "a ,b", "k : v", "a == b", "a==b", "1 +  2", "'q  q'", "\"d , d\"",
              "(a  b)", "[1,  2]", "{k:  v}", "f(x  ,y)", "a # b", "a#b", "$HOME  x", "@(x)  y", "$(ls  -l)", "a\tb", "-x  --y=1",
              "if  x", "not  y", "lambda x:  x", "a  =  b", "ünï  中", "a;b", "a ;  b", "a | b", "a  &&  b", "> f", "http://x  y",
-             "x:=1", "a->b", "*  ?", "`r  e`", "a.b  .c", "1.  .5", "a!b", "a !  b", "\\d  \\s"]
+             "x:=1", "a->b", "*  ?", "`r  e`", "a.b  .c", "1.  .5", "a!b", "a !  b"]
 PY_SIMPLE = ["x = 1", "x=1", "x  =  1", "x= 1", "x =1", "y = x+1", "y = x + 1", "y=x +1", "a, b = b, a", "a,b=b,a", "a , b = 1 , 2",
              "x += 1", "x+=1", "x -=1", "x **= 2", "x //=2", "x @= y", "x |= 1", "x <<= 2", "f(a, b)", "f(a,b)", "f( a , b )",
              "f(a, k=1)", "f(a, k = 1)", "f(*a, **k)", "f(* a, ** k)", "print(x)", "print( x )", "print (x)", "d = {'a': 1, 'b': 2}",
@@ -360,7 +360,7 @@ class XGen:
                 extra = self.pick(["  ", "    ", "\t"])
             if i > 0 and c == 1:
                 lines.append(self.pick(["", "", "   ", ind + body_unit]))
-            t = self.pick([self.raw(), self.raw(), self.pick(PY_SIMPLE).split("\n")[0], self.command(False).replace("!", ""), "<tag  a='1'>", "</tag>",
+            t = self.pick([self.raw(), self.raw(), self.pick(PY_SIMPLE).split("\n")[0].rstrip("\\ "), self.command(False).replace("!", ""), "<tag  a='1'>", "</tag>",
                            "raw   text  here", "# only  a  comment", "x  =  1   # c"])
             lines.append(ind + body_unit + extra + t + self.pick(["", "", "", "  "]))
         return lines
